@@ -154,6 +154,7 @@ def poolMod : Mod Unit where
     | ["names"] => ((), "a,b")
     | ["flush", _] => ((), "ok")
     | ["psize"] => ((), "*")
+    | ["stat", _] => ((), "*")
     | _ => ((), "bad-op")
 
 /-! ### the ordering buffer: observable state = (connected events, buffered events oldest first).
@@ -273,6 +274,7 @@ def judge (st : St) (entries : List (String × Nat × Nat × Nat × String)) : S
           | "names" :: _ => some r
           | "flush" :: _ => some r
           | "psize" :: _ => some r
+          | "stat" :: _ => some { r with res := "*" }
           | _ => none
         (verdict "pool" (linearizable poolMod () pool)).orElse fun _ =>
         (verdict "store-a" (linearizable flushMod { under := [] } (store "a"))).orElse fun _ =>
